@@ -25,6 +25,11 @@ fn vk_any_fdl() -> crate::fdl::FdlActiveStation {
     crate::fdl::FdlActiveStation::new(vk_any_params())
 }
 #[allow(dead_code)]
+/// the FDL may ask for a high-priority-only cycle at any call
+fn vk_any_hp() -> crate::fdl::HighPrioOnly {
+    if kani::any() { crate::fdl::HighPrioOnly::Yes } else { crate::fdl::HighPrioOnly::No }
+}
+
 fn vk_any_instant() -> crate::time::Instant {
     let t: i64 = kani::any();
     kani::assume(t >= 0 && t < (1i64 << 50));
